@@ -202,7 +202,7 @@ func runC09(tb report.TB, rep *report.Reporter, c c09Case) {
 
 	var shapes []string
 	rejected, accepted := 0, 0
-	clockMoves, clocksBehind, packs := 0, 0, 0
+	clockMoves, clocksBehind, packs, fullCachePulls := 0, 0, 0, 0
 	for ai, a := range c.Actions {
 		r := repos[a.R]
 		id := ids[a.Ident%len(ids)]
@@ -332,6 +332,23 @@ func runC09(tb report.TB, rep *report.Reporter, c c09Case) {
 				if err != nil {
 					tb.Fatalf("harness: cache: %v", err)
 				}
+				if (c.Seed+uint64(ai))%2 == 0 {
+					// a session that found its cache files, has every identity in use, and keeps no more in memory than that
+					_ = rc.Close()
+					if rc, err = cache.NewRepoCacheNoEvents(r); err != nil {
+						tb.Fatalf("harness: cache: %v", err)
+					}
+					loaded := 0
+					for _, x := range rc.Identities().AllIds() {
+						if _, err := rc.Identities().Resolve(x); err == nil {
+							loaded++
+						}
+					}
+					if loaded > 0 {
+						rc.Identities().SetCacheSize(loaded)
+						fullCachePulls++
+					}
+				}
 				for res := range rc.Identities().MergeAll("origin") {
 					if res.Id != "" {
 						results[string(res.Id)] = res
@@ -449,6 +466,9 @@ func runC09(tb report.TB, rep *report.Reporter, c c09Case) {
 	}
 	if packs > 0 {
 		classes = append(classes, "references-packed-between-actions")
+	}
+	if fullCachePulls > 0 {
+		classes = append(classes, "pulled-through-a-cache-that-is-exactly-full")
 	}
 	rep.Case(fmt.Sprintf("%d|%s|rej%v", c.NIdent, strings.Join(shapes, " "), rejected > 0), nontrivial, classes, c)
 }
